@@ -63,7 +63,7 @@ pub fn line_class(st: &St, n: u8, k: u8, id: Option<u8>) -> &'static str {
         St::Open { id: oid, last, n: on, .. } => {
             if *oid != id {
                 "wrong-id"
-            } else if k == last + 1 {
+            } else if k as u16 == *last as u16 + 1 {
                 if *on != n {
                     "count-mismatch"
                 } else if k == n {
@@ -73,7 +73,7 @@ pub fn line_class(st: &St, n: u8, k: u8, id: Option<u8>) -> &'static str {
                 }
             } else if k == *last {
                 "duplicate"
-            } else if k > last + 1 {
+            } else if k as u16 > *last as u16 + 1 {
                 "skip"
             } else {
                 "behind"
@@ -83,7 +83,7 @@ pub fn line_class(st: &St, n: u8, k: u8, id: Option<u8>) -> &'static str {
         St::Closed { delivered: false } => "orphan",
         St::Ambiguous => "in-ambiguous",
         St::FailedFinal { id: oid, last, .. } => {
-            if *oid == id && k == last + 1 {
+            if *oid == id && k as u16 == *last as u16 + 1 {
                 "retry-after-failed-delivery"
             } else {
                 "stale-after-failed-delivery"
@@ -122,7 +122,7 @@ impl Reasm {
         match &self.st {
             St::Ambiguous => Expect::Unjudged,
             St::FailedFinal { id: oid, last, acc, .. } => {
-                if *oid == id && k == last + 1 {
+                if *oid == id && k as u16 == *last as u16 + 1 {
                     let mut p = acc.clone();
                     p.extend_from_slice(payload);
                     Expect::Either(if k == n { Some(p) } else { None })
@@ -135,7 +135,7 @@ impl Reasm {
             St::Open { id: oid, last, n: on, acc } => {
                 if *oid != id {
                     Expect::Reject("sequence id differs from the open group")
-                } else if k != last + 1 {
+                } else if k as u16 != *last as u16 + 1 {
                     Expect::Reject("fragment number does not directly continue the group")
                 } else if *on != n {
                     let mut p = acc.clone();
